@@ -100,6 +100,45 @@ def provn_twin_bundles(ctx):
     _provn_check(ctx, DS.twin_bundles_doc(ctx))
 
 
+REPRINT = ["add_asserted_type", "add_attributes", "set_time", "new record", "new namespace + record", "record into bundle",
+           "attribute of a bundled record", "live attribute set"]
+
+
+def provn_reprint(ctx):
+    """history print -> mutate -> print: the second text denotes the document as it is then"""
+    from harness.common import TIMES, new_doc
+
+    stub_logging_str(ctx)
+    m = ctx.params["mutation"]
+    d = new_doc()
+    e = d.entity("ex:e", {"ex:k": ctx.bigint("v")})
+    a = d.activity("ex:a", TIMES[0] if ctx.bool("t0") else None)
+    b = d.bundle("en:b")
+    be = b.entity("ex:e", {"ex:k": 1})
+    # first print through every public route that produces PROV-N
+    first = (d.get_provn(), str(e), str(a), b.get_provn(), be.get_provn(), repr(e) if not ctx.sym else "")
+    if m == 0:
+        e.add_asserted_type(d.valid_qualified_name("ex:" + ctx.str("t", 2, 1, "name")))
+    elif m == 1:
+        e.add_attributes({"ex:j": ctx.bigint("w")})
+    elif m == 2:
+        a.set_time(TIMES[1], TIMES[2] if ctx.bool("end") else None)
+    elif m == 3:
+        d.usage("ex:a", "ex:e", None, None, {"ex:k": ctx.bigint("w")})
+    elif m == 4:
+        d.add_namespace("nw", "http://nw/" + ctx.str("u", 2, 0, "name"))
+        d.agent("nw:ag")
+    elif m == 5:
+        b.activity("ex:a2", None, TIMES[1])
+    elif m == 6:
+        be.add_asserted_type(d.valid_qualified_name("ex:T"))
+        be.add_attributes([("ex:k", ctx.bigint("w"))])
+    else:
+        e.get_attribute("ex:k").add(ctx.bigint("w"))
+    _provn_check(ctx, d)
+    ctx.observe("m", m)
+
+
 def provn_structure(ctx):
     stub_logging_str(ctx)
     P = ctx.params
@@ -142,6 +181,13 @@ OBLIGATIONS = [
                desc="sibling bundles binding one prefix to different URIs (+ empty bundle): PROV-N parses and denotes the same document",
                bounds="2-3 bundles; URIs |u|<=3", assumptions=_ASSUME, functions=["prov.model.ProvBundle.get_provn"], shims=["PROV-N text is pinned before the independent reader runs"],
                best_verdict="PATH_COMPLETE", budget_s=(150, 600), per_path_s=(30, 60)),
+    Obligation(name="provn_reprint", fn=provn_reprint, shards=[{"mutation": i} for i in range(len(REPRINT))],
+               desc="history print -> mutate -> print: after the document, its records and its bundle have been printed once (get_provn, str), one in-place "
+                    "modification (add_asserted_type, add_attributes, set_time, new record, new namespace, record into the bundle, bundled record, live set) "
+                    "is made and the text printed then parses and denotes the document as it is then",
+               bounds="document of entity + activity + bundle(entity); one modification with symbolic ints / |local|<=2", assumptions=_ASSUME,
+               functions=["prov.model.ProvBundle.get_provn", "prov.model.ProvRecord.get_provn/__str__/add_asserted_type/add_attributes", "prov.model.ProvActivity.set_time"],
+               shims=["PROV-N text is pinned before the independent reader runs"], best_verdict="PATH_COMPLETE", budget_s=(100, 300), per_path_s=(30, 60)),
     Obligation(name="provn_values", fn=provn_values, shards=_value_shards,
                desc="get_provn() of one entity with one attribute (6 name classes x 15 value kinds, 5 namespace modes, document/bundle) parses under the W3C grammar "
                     "with an independent recursive-descent parser and denotes the same strict content",
